@@ -9,7 +9,7 @@ COMMON_ASSUMPTIONS = [
 
 PROPERTIES: dict[str, dict] = {
     "C01": {
-        "rules": ["R-BLISS", "R-FLOW-CANON", "R-FLOW-SERIAL", "R-KEYS", "R-BIJ", "R-OWNFIRST", "R-HASH", "R-INDEXSPACE", "R-GRAPHBUILD", "R-REBUILD", "R-ATTRREAD", "R-GLOBAL", "R-IDXTRUTH", "R-CANONPATH"],
+        "rules": ["R-BLISS", "R-FLOW-CANON", "R-FLOW-SERIAL", "R-KEYS", "R-BIJ", "R-OWNFIRST", "R-HASH", "R-INDEXSPACE", "R-GRAPHBUILD", "R-REBUILD", "R-ATTRREAD", "R-GLOBAL", "R-IDXTRUTH", "R-CANONPATH", "R-INVCODE"],
         "thorough_rules": ["R-LIBSRC"],
         "technique": "information-flow (order/label/hash taint) abstract interpretation + index-space typing of the bliss call site",
         "explanation": "Non-interference proof over all paths of canonicalize_molecule and serialize_molecule: colours handed to bliss carry no "
@@ -20,7 +20,7 @@ PROPERTIES: dict[str, dict] = {
         "assumptions": COMMON_ASSUMPTIONS + ["bliss returns a canonical form for colour-isomorphic graphs", "igraph index convention table per version (spec.py)"],
     },
     "C02": {
-        "rules": ["R-CODEC", "R-KEYS", "R-ELEMTABLE", "R-LEX", "R-ATTRREAD", "R-REBUILD", "R-EXPRESS", "R-SYMZ", "R-RECMERGE"],
+        "rules": ["R-CODEC", "R-KEYS", "R-ELEMTABLE", "R-LEX", "R-ATTRREAD", "R-REBUILD", "R-EXPRESS", "R-SYMZ", "R-RECMERGE", "R-INVCODE", "R-SUPERSEDE", "R-ATOMLINE"],
         "technique": "structural losslessness rules on serializer/parser + automata check of unique tokenisation",
         "explanation": "Necessary conditions of injectivity, each decided over all code paths: every edge / labelled atom / atom is emitted "
                        "(no filter), indices are label+1 and decoded as index-1, numbering is by atomic number first so the formula identifies "
@@ -40,7 +40,7 @@ PROPERTIES: dict[str, dict] = {
         "assumptions": COMMON_ASSUMPTIONS,
     },
     "C04": {
-        "rules": ["R-BLISS", "R-BIJ", "R-FLOW-CANON", "R-COPY", "R-KEYS", "R-OWNFIRST", "R-GRAPHBUILD", "R-INDEXSPACE", "R-ATTRREAD", "R-GLOBAL", "R-CANONPATH"],
+        "rules": ["R-BLISS", "R-BIJ", "R-FLOW-CANON", "R-COPY", "R-KEYS", "R-OWNFIRST", "R-GRAPHBUILD", "R-INDEXSPACE", "R-ATTRREAD", "R-GLOBAL", "R-CANONPATH", "R-INVCODE"],
         "thorough_rules": ["R-LIBSRC"],
         "technique": "index-space typing of the bliss call site + taint analysis of the colour vector",
         "explanation": "The property's own mechanism: label-independent colours (taint proof), bliss called with them, its result used in the "
@@ -67,7 +67,7 @@ PROPERTIES: dict[str, dict] = {
         "assumptions": COMMON_ASSUMPTIONS + ["CTfile V3000 atom keyword list (spec.py)"],
     },
     "C07": {
-        "rules": ["R-KWEXACT", "R-ZERO", "R-ORDERING", "R-SPLICE", "R-TOKENS", "R-SIBKEYS", "R-PROV", "R-ALIAS", "R-WRAP", "R-INDEXSPACE", "R-GRAPHBUILD", "R-DISPATCH", "R-SYMZ", "R-BONDTYPE", "R-IDXTRUTH", "R-COUNTSLINE", "R-NONECHECK"],
+        "rules": ["R-KWEXACT", "R-ZERO", "R-ORDERING", "R-SPLICE", "R-TOKENS", "R-SIBKEYS", "R-PROV", "R-ALIAS", "R-WRAP", "R-INDEXSPACE", "R-GRAPHBUILD", "R-DISPATCH", "R-SYMZ", "R-BONDTYPE", "R-IDXTRUTH", "R-COUNTSLINE", "R-NONECHECK", "R-ATOMLINE"],
         "technique": "partial evaluation of token predicates over the spec's keyword set + heap-based taint analysis of the reader + CFG ordering rules",
         "explanation": "Keyword recognizers accept exactly their keyword; zero-valued explicit defaults never reach atom records; splicing precedes "
                        "tokenising and bond endpoints are validated before return; D/T pass through the shared helper; per-bond dictionaries are not shared.",
@@ -75,7 +75,7 @@ PROPERTIES: dict[str, dict] = {
         "assumptions": COMMON_ASSUMPTIONS + ["CTfile V3000 atom keyword list (spec.py)"],
     },
     "C08": {
-        "rules": ["R-COLS", "R-CHGTABLE", "R-SIBKEYS", "R-KILL", "R-SUPERSEDE", "R-ZERO", "R-PROV", "R-INDEXSPACE", "R-GRAPHBUILD", "R-FLOW-SERIAL", "R-FLOW-CANON", "R-DISPATCH", "R-SYMZ", "R-BONDTYPE", "R-IDXTRUTH"],
+        "rules": ["R-COLS", "R-CHGTABLE", "R-SIBKEYS", "R-KILL", "R-SUPERSEDE", "R-ZERO", "R-PROV", "R-INDEXSPACE", "R-GRAPHBUILD", "R-FLOW-SERIAL", "R-FLOW-CANON", "R-DISPATCH", "R-SYMZ", "R-BONDTYPE", "R-IDXTRUTH", "R-ATOMLINE"],
         "technique": "column-span checking via provenance labels and partial evaluation + kill/def analysis of the property block",
         "explanation": "Every column slice equals its CTfile field (atom, bond, counts and the affine property-entry layout for entries 1..8), the "
                        "charge-code table is the format's, both readers write the same keys, symbol-derived masses are never cleared, CHG/RAD lines "
@@ -102,7 +102,7 @@ PROPERTIES: dict[str, dict] = {
         "assumptions": COMMON_ASSUMPTIONS + ["numbers in TUCAN strings stay below the interpreter's integer-conversion limit"],
     },
     "C11": {
-        "rules": ["R-FLOW-PARSE", "R-BLISS", "R-FLOW-CANON", "R-FLOW-SERIAL", "R-BIJ", "R-KEYS", "R-REBUILD", "R-ATTRREAD", "R-GLOBAL", "R-CODEC", "R-REJECT", "R-PARSEPATH", "R-CANONPATH"],
+        "rules": ["R-FLOW-PARSE", "R-BLISS", "R-FLOW-CANON", "R-FLOW-SERIAL", "R-BIJ", "R-KEYS", "R-REBUILD", "R-ATTRREAD", "R-GLOBAL", "R-CODEC", "R-REJECT", "R-PARSEPATH", "R-CANONPATH", "R-INVCODE"],
         "thorough_rules": ["R-LIBSRC"],
         "technique": "taint analysis of the parser listener composed with the C01 flow proof",
         "explanation": "Spelling (tuple order, orientation, repetition, block order) reaches the parsed graph only as insertion order; the pipeline is "
@@ -120,7 +120,7 @@ PROPERTIES: dict[str, dict] = {
         "assumptions": COMMON_ASSUMPTIONS,
     },
     "C13": {
-        "rules": ["R-FLOW-CANON", "R-OWNFIRST", "R-FIXPOINT", "R-KEYS", "R-ATTRREAD", "R-GLOBAL", "R-CANONPATH"],
+        "rules": ["R-FLOW-CANON", "R-OWNFIRST", "R-FIXPOINT", "R-KEYS", "R-ATTRREAD", "R-GLOBAL", "R-CANONPATH", "R-INVCODE"],
         "technique": "taint analysis of the class values + structural rules on the refinement key and its termination idiom",
         "explanation": "Class values carry no label/order/hash taint; the refinement key starts with the atom's own class and continues with the sorted "
                        "neighbour classes, ids are dense ranks of the sorted key set; the driver returns only a partition whose class count equals "
